@@ -678,8 +678,14 @@ def enum_ctor_overloads():
 
 def enum_depth(grid, depth, noise=(0,), full=True, kinds=(GM, GA, PS)):
     """constructor (+ optional first augmentation giving the layout `noise` rows) followed by `depth` steps of the
-    alphabet, every step preceded by a fill of the object with fresh recognisable values"""
-    cases = []
+    alphabet, every step preceded by a fill of the object with fresh recognisable values (generator)"""
+    def rec(prefix, lay, left, stamp):
+        for steps, nxt in alphabet(lay, grid, full):
+            seq = prefix + steps
+            if left == 1 or nxt is None:
+                yield seq
+            else:
+                yield from rec(seq + [("FI", 0, stamp)], nxt, left - 1, stamp + 1)
     for lay0 in layouts(grid, kinds):
         for n0 in noise:
             base = [lay0.ctor(0), ("FI", 0, 1)]
@@ -687,16 +693,7 @@ def enum_depth(grid, depth, noise=(0,), full=True, kinds=(GM, GA, PS)):
             if n0:
                 base += [("AU", 0, n0, n0, qmat(n0, n0, 3)), ("FI", 0, 2)]
                 lay.n = n0
-
-            def rec(prefix, lay, left, stamp):
-                for steps, nxt in alphabet(lay, grid, full):
-                    seq = prefix + steps
-                    if left == 1 or nxt is None:
-                        cases.append(seq)
-                    else:
-                        rec(seq + [("FI", 0, stamp)], nxt, left - 1, stamp + 1)
-            rec(base, lay, depth, 10)
-    return cases
+            yield from rec(base, lay, depth, 10)
 
 
 def gen_random(g, maxlen):
@@ -805,14 +802,43 @@ def gen_random(g, maxlen):
 
 # --------------------------------------------------------------------------- the check
 
-def run_cases(all_cases, binary, workers):
+def run_cases(sets, binary, workers, stop_after=300):
+    """sets: [(name, rule, iterable of cases, exhaustive)] -> (aggregates, sizes, stopped_early, distinct)"""
     global _BIN
     _BIN = binary
-    chunks = [all_cases[i:i + 400] for i in range(0, len(all_cases), 400)]
-    if workers <= 1 or len(chunks) <= 1:
-        return [_work(c) for c in chunks]
-    with multiprocessing.get_context("fork").Pool(workers) as pool:
-        return pool.map(_work, chunks, chunksize=1)
+    sizes, seen = {}, set()
+
+    def chunks():
+        for name, rule, cases, ex in sets:
+            buf = []
+            sizes[name] = 0
+            for c in cases:
+                buf.append(c)
+                if not ex:
+                    seen.add(hash(case_line(c)))
+                if len(buf) == 400:
+                    sizes[name] += len(buf); yield buf; buf = []
+            if buf:
+                sizes[name] += len(buf); yield buf
+    aggs, bad, stopped = [], 0, False
+    if workers <= 1:
+        it = (_work(c) for c in chunks())
+        pool = None
+    else:
+        pool = multiprocessing.get_context("fork").Pool(workers)
+        it = pool.imap_unordered(_work, chunks(), chunksize=1)
+    try:
+        for a in it:
+            aggs.append(a)
+            bad += len(set(v[2] for v in a["viol"]))
+            if bad > stop_after:        # enough failing inputs: a broken tree is reported quickly
+                stopped = True
+                break
+    finally:
+        if pool is not None:
+            pool.terminate()
+            pool.join()
+    return aggs, sizes, stopped, len(seen)
 
 
 def shrink(ops, binary, key):
@@ -839,49 +865,52 @@ def shrink(ops, binary, key):
     return best
 
 
+RULE_A = ("alphabet A = {resize to every (components, linear, circular) of the grid [Gaussian: every (linear, circular)], resize with the default argument, "
+          "augmentWithNoise with a square a x a matrix a = 0..3 and with 1x2, 2x1, 0x1 matrices, copy construction / copy assignment over another layout / "
+          "base-class copy each followed by a fill of the copy, element writes through every accessor variant at the last component's last row and column, and for "
+          "particle sets: += and + with a set of the same layout and 1..4 (resp. 1..2) components, a + a, a += a (assertion), += with a larger layout (assertion), "
+          "+= with the other Euler split of the same size (accepted), += of an Euler set of the same total size to a quaternion set (assertion)}; "
+          "reduced alphabet A' = A without the element writes and with concatenation operands of 2 components only")
+
+
 def run(ctx):
     ctx.proof_stage()
     binary = vlib.build_harness("h_shape")
     quick = ctx.quick()
-    sets = []        # (name, rule, cases, exhaustive?)
+    sets = []        # (name, rule, iterable of cases, exhaustive?)
     corpus = vlib.VERIF / "corpus" / "C11" / "cases.txt"
     if corpus.exists():
         cs = [parse_line(ln.strip()) for ln in corpus.read_text().split("\n") if ln.strip() and not ln.startswith("#")]
         sets.append(("corpus", "regression corpus corpus/C11/cases.txt (witnesses of the defects fixed by 668e0de, ad6ea89, 2c84227 and boundary cases)", cs, False))
-    sets.append(("ctor-overloads", "every constructor overload of the three classes: default; (components 1..4, dim 0..4); Gaussian(dim 0..4)", enum_ctor_overloads(), True))
+    sets.append(("ctor-overloads", "EXHAUSTIVE: every constructor overload of the three classes: default; (components 1..4, dim 0..4); Gaussian(dim 0..4)", enum_ctor_overloads(), True))
     sets.append(("depth1-full-grid",
                  "EXHAUSTIVE: for every class and every layout of the property's grid (components 1..4 [Gaussian: 1], linear 0..4, circular 0..2, Euler/quaternion) and "
-                 "every initial noise size 0..3 (obtained by one augmentWithNoise): construct, fill with recognisable values, then every single step of the alphabet A = "
-                 "{resize to every (components, linear, circular) of the grid [Gaussian: every (linear, circular)], resize with default argument, augmentWithNoise with a square "
-                 "a x a matrix a = 0..3 and with 1x2, 2x1, 0x1 matrices, copy construction / copy assignment over another layout / base-class copy each followed by a fill of "
-                 "the copy, element writes through every accessor variant at the last component's last row/column, and for particle sets: += and + with a set of the same layout "
-                 "and 1..4 (resp. 1..2) components, a + a, a += a (assertion), += with a larger layout (assertion), += with another Euler split of the same size (accepted), "
-                 "+= of an Euler set of the same total size to a quaternion set (assertion)}",
+                 "every initial noise size 0..3 (obtained by one augmentWithNoise): construct, fill with recognisable values, then every single step of A", 
                  enum_depth(GRID_FULL, 1, noise=(0, 1, 2, 3)), True))
     if quick:
         sets.append(("depth2-tiny-grid",
-                     "EXHAUSTIVE: as above with two consecutive steps of A (a fill between them), layouts and resize targets restricted to components 1..2, linear {0, 2}, "
-                     "circular 0..1, Euler/quaternion, initial noise 0; A without the element writes and with concatenation operands of 2 components only",
+                     "EXHAUSTIVE: two consecutive steps of A' (a fill between them); layouts and resize targets restricted to components 1..2, linear {0, 2}, "
+                     "circular 0..1, Euler/quaternion, all classes, initial noise 0",
                      enum_depth(GRID_TINY, 2, noise=(0,), full=False), True))
     else:
         sets.append(("depth2-full-grid",
                      "EXHAUSTIVE: two consecutive steps of the full alphabet A (a fill between them) for every class and every layout of the property's grid, initial noise 0",
                      enum_depth(GRID_FULL, 2, noise=(0,), full=True), True))
-        sets.append(("depth3-small-grid",
-                     "EXHAUSTIVE: three consecutive steps of A (fills between them), layouts and resize targets restricted to components 1..3, linear 0..2, circular 0..1, "
-                     "Euler/quaternion, initial noise 0; A without element writes, concatenation operands of 2 components only",
-                     enum_depth(GRID_SMALL, 3, noise=(0,), full=False), True))
+        sets.append(("depth3-tiny-grid",
+                     "EXHAUSTIVE: three consecutive steps of A' (fills between them); layouts and resize targets restricted to components 1..2, linear {0, 2}, "
+                     "circular 0..1, Euler/quaternion, all classes, initial noise 0",
+                     enum_depth(GRID_TINY, 3, noise=(0,), full=False), True))
     g = ctx.gen("random")
-    nrand = ctx.n(3000, 60000)
+    nrand = ctx.n(2500, 60000)
+    rnd = [gen_random(g, 12) for _ in range(nrand)]
     sets.append(("random", "seeded random sequences of 2..12 operations on a pool of 3 objects (all operations incl. constructor overloads, copies between slots, "
-                 "component-count-only resizes, same-size other-split resizes, repeated augmentation, concatenation chains, element writes with special values)",
-                 [gen_random(g, 12) for _ in range(nrand)], False))
+                 "component-count-only resizes, same-size other-split resizes, repeated augmentation, concatenation chains, element writes with special values)", rnd, False))
     if ctx.replay:
         import json
         sets = [("replay", "the input recorded in %s" % ctx.replay, [parse_line(json.load(open(ctx.replay))["replay"]["input_line"])], False)]
-    all_cases = [c for s in sets for c in s[2]]
-    workers = max(1, min(8, vlib.NPROC // 2))
-    aggs = run_cases(all_cases, binary, workers)
+    workers = max(1, min(8 if quick else 12, vlib.NPROC - 2))
+    aggs, sizes, stopped, distinct_sampled = run_cases(sets, binary, workers)
+    total = sum(a["n"] for a in aggs)
     viol, corr, notes, br = [], [], {}, {}
     content = specified = unspecified = crashes = 0
     content_example = None
@@ -910,20 +939,25 @@ def run(ctx):
             key, len(corr), what), {"harness": "h_shape", "correspondence": "BFL.Shape.step vs GaussianMixture/Gaussian/ParticleSet", "input_line": line[:3000], "observed": h[:3000]}, no_input=True)
     if content:
         ctx.notes.append("entry values differ from the model's specified cells in %d case(s) outside the property's clauses (not an alarm); first: %s" % (content, (content_example or "")[:600]))
-    distinct = len(set(case_line(c) for c in all_cases))
+    if stopped:
+        ctx.notes.append("stopped early after more than 300 failing inputs; the enumerations below were not completed on this (failing) run")
+    ex_names = [n for n, r, c, e in sets if e]
     ctx.coverage.update({
-        "evaluations": len(all_cases), "distinct_nontrivial": distinct,
-        "rule": "; ".join("[%s: %d cases] %s" % (n, len(c), r) for n, r, c, e in sets),
-        "samples": [case_line(max(sets, key=lambda x: len(x[2]))[2][len(max(sets, key=lambda x: len(x[2]))[2]) // 3])[:400], case_line(sets[-1][2][0])[:600]],
-        "exhaustive": {n: {"complete": True, "cases": len(c)} for n, r, c, e in sets if e},
-        "set_sizes": {n: len(c) for n, r, c, e in sets},
-        "traces_validated_against_impl": len(all_cases),
+        "evaluations": total,
+        "distinct_nontrivial": sum(sizes.get(n, 0) for n in ex_names) + distinct_sampled,
+        "rule": RULE_A + " || " + "; ".join("[%s: %d cases] %s" % (n, sizes.get(n, 0), r) for n, r, c, e in sets)
+                + " || distinct = enumerated sequences (distinct by construction) + distinct lines of the sampled sets; all have >= 1 operation on a constructed object",
+        "samples": [case_line(rnd[0])[:500] if rnd else "", case_line(rnd[-1])[:500] if rnd else ""],
+        "exhaustive": (not stopped) and not ctx.replay,
+        "exhaustive_sets": {n: {"complete": not stopped, "cases": sizes.get(n, 0)} for n in ex_names},
+        "set_sizes": sizes,
+        "traces_validated_against_impl": total,
         "branch_histogram": dict(sorted(br.items())),
         "entries_compared_specified": specified, "entries_skipped_unspecified": unspecified,
         "model_vs_impl_disagreements": len(corr), "property_failures_on_impl": len(viol),
         "content_disagreements_outside_property": content,
         "sequences_ending_in_predicted_assertion": notes.get("assert-agreed", 0),
-        "notes_histogram": notes, "impl_aborts": crashes, "workers": workers,
+        "notes_histogram": notes, "impl_aborts": crashes, "workers": workers, "stopped_early": stopped,
     })
     ctx.assumptions += [
         "components >= 1 (the property's layouts); resize to 0 components is outside the model",
